@@ -80,7 +80,9 @@ PARAM_RANGE = {
     "ExponentiatedWeibull": dict(alpha=(0.1, 12), beta=(0.6, 3), delta=(0.4, 20)),
     "GeneralizedGamma": dict(m=(0.5, 8), c=(0.6, 3), lambda_=(0.1, 5)),
     "VonMises": dict(kappa=(0.2, 20), mu=(-2, 2)),
-    "LogNormalNormFit": dict(mu_norm=(0.3, 20), sigma_norm=(0.05, 6)),
+    # (independent dependence functions for mean and standard deviation: the ranges keep the coefficient of
+    # variation within [0.03, 6]; a conditional law with cv < 1 % is a ridge that defeats scipy's nquad)
+    "LogNormalNormFit": dict(mu_norm=(0.5, 6), sigma_norm=(0.2, 3)),
     "ScipyGamma": dict(a=(0.8, 10), loc=(0.05, 2.0), scale=(0.2, 5)),
     "ScipyGenGamma": dict(a=(0.6, 6), c=(0.6, 3), loc=(0.05, 1.0), scale=(0.2, 5)),
 }
